@@ -39,6 +39,8 @@ struct Runner;
 static Runner *g_runner = nullptr;
 static ShardCtl *g_ctl = nullptr;
 static int g_failfd = -1;
+static FILE *g_hashf = nullptr;      // optional per-case observation hashes (cross-build differential)
+inline void emit_hash(uint64_t idx, uint64_t h) { if (g_hashf) fprintf(g_hashf, "%llu %016llx\n", (unsigned long long)idx, (unsigned long long)h); }
 static const unsigned MAX_FAIL_PER_SHARD = 25;
 
 // called by a case body (in the child) when an oracle fails; the run continues
@@ -63,6 +65,7 @@ struct Runner {
     std::function<void(uint64_t, ShardCtl&)> body;
     std::function<JObj(uint64_t)> describe;          // descriptor of case idx
     std::function<void(int)> shard_init;             // optional per-child initialisation
+    std::string hash_out;                            // if set: merged "idx hash" lines are written here
     // results
     uint64_t total_done = 0; uint64_t counters[NCOUNTERS] = {0};
     std::set<uint64_t> classes; bool exhaustive = true; uint64_t covered_prefix = 0;
@@ -89,6 +92,7 @@ struct Runner {
         int efd = open(errpath(s).c_str(), O_WRONLY|O_CREAT|O_TRUNC, 0644);
         if (efd >= 0) { dup2(efd, 2); close(efd); }
         g_failfd = open(failpath(s).c_str(), O_WRONLY|O_CREAT|O_APPEND, 0644);
+        if (!hash_out.empty()) g_hashf = fopen((hash_out + "." + std::to_string(s)).c_str(), "a");
         if (shard_init) shard_init(s);
         uint64_t k = 0;
         for (uint64_t i = ctl->next; i < ncases; i += nshards, ++k) {
@@ -102,6 +106,7 @@ struct Runner {
         }
         alarm(0);
         ctl->cur = ~0ULL;
+        if (g_hashf) fclose(g_hashf);
         fflush(stdout);
         _exit(0);
     }
@@ -137,6 +142,7 @@ struct Runner {
         std::vector<pid_t> pid(nshards); std::vector<unsigned> crashes(nshards, 0);
         fflush(stdout);
         for (int s = 0; s < nshards; ++s) {
+            if (!hash_out.empty()) unlink((hash_out + "." + std::to_string(s)).c_str());
             unlink(failpath(s).c_str());
             ctls[s].next = s; ctls[s].cur = ~0ULL;
             pid[s] = fork();
@@ -187,6 +193,12 @@ struct Runner {
                 free(line); fclose(f); unlink(failpath(s).c_str()); }
             unlink(errpath(s).c_str());
         }
+        if (!hash_out.empty()) {
+            std::map<uint64_t, std::string> all;
+            for (int s = 0; s < nshards; ++s) { std::string pth = hash_out + "." + std::to_string(s); FILE *f = fopen(pth.c_str(), "r"); if (!f) continue;
+                unsigned long long i; char hx[32]; while (fscanf(f, "%llu %31s", &i, hx) == 2) all[i] = hx; fclose(f); unlink(pth.c_str()); }
+            FILE *o = fopen(hash_out.c_str(), "w"); if (o) { for (auto &kv : all) fprintf(o, "%llu %s\n", (unsigned long long)kv.first, kv.second.c_str()); fclose(o); }
+        }
         munmap(ctls, sz);
         wall = now_s() - t0;
     }
@@ -194,6 +206,7 @@ struct Runner {
     // run exactly one case in-process (replay mode)
     void replay(uint64_t idx) {
         static ShardCtl ctl; memset((void*)&ctl, 0, sizeof ctl); g_ctl = nullptr;
+        if (!hash_out.empty()) g_hashf = stdout;
         if (shard_init) shard_init(-1);
         body(idx, ctl);
     }
